@@ -17,6 +17,12 @@ built to make a *broken* nonce collide:
            several relative offsets, so that (time, seq, ack) coincide across
            directions and only the direction magic separates the nonces
   mixed    mixed sizes / retry modes / idle periods (keep-alive only) / outages
+  slowhello  handshakes over slow links (round trips swept from 0.6 s to just below the handshake timeout - the default 2 s, or 5 s
+           configured on both sides - split evenly or unevenly over the two directions, i.e. round trips below, around and above
+           the message timeout, which is itself swept from 0.05 s to 2.5 s) with a server application that
+           greets every client from inside its connect event and keeps sending in the first ticks after promotion: whatever is
+           still queued or pending from the handshake, every datagram the server emits once the key is agreed is either the lone
+           signed hello or ciphertext
 """
 from mon.core.merge import merge, need
 from mon.core.util import Counter, h64, rng
@@ -44,7 +50,11 @@ def plan(tier, seed):
         shards.append({"kind": "idlespin", "tier": tier, "seed": seed, "shard": 0, "idle": 1300.0, "spins": 70000, "subprocess": True})
         shards.append({"kind": "livespin", "tier": tier, "seed": seed, "shard": 0, "spins": 70000, "subprocess": True})
         shards.append({"kind": "livespin", "tier": tier, "seed": seed, "shard": 1, "spins": 70000, "keepalive": 0.0, "subprocess": True})
+        for i in range(4):
+            shards.append({"kind": "slowhello", "tier": tier, "seed": seed, "shard": i, "n": 3, "clients": 8, "subprocess": True})
     else:
+        for i in range(8):
+            shards.append({"kind": "slowhello", "tier": tier, "seed": seed, "shard": i, "n": 8, "clients": 12, "subprocess": True})
         shards.append({"kind": "livespin", "tier": tier, "seed": seed, "shard": 0, "spins": 140000, "subprocess": True})
         shards.append({"kind": "livespin", "tier": tier, "seed": seed, "shard": 1, "spins": 140000, "keepalive": 0.0, "subprocess": True})
         shards.append({"kind": "livespin", "tier": tier, "seed": seed, "shard": 2, "spins": 140000, "keepalive": 0.001, "subprocess": True})
@@ -314,6 +324,117 @@ def run_livespin(cfg, out):
         return run.c.get("wire_total", 0)
 
 
+MESSAGE_TIMEOUTS = (None, 0.05, 0.25, 0.6, 1.0, 2.5)     # None: the default (1 s) is left alone
+
+
+def run_slowhello(cfg, out):
+    """slow handshakes x eager server application.  Per world: one message timeout (swept over MESSAGE_TIMEOUTS by shard and
+    case), one pair of handshake timeouts (the defaults of 2 s, or 5 s on both sides so that round trips of up to 4 s complete),
+    and several clients whose round trips are a stratified sweep between 0.6 s and what the handshake timeout allows, split
+    evenly or unevenly over the two directions (per-client delays: a filter of the simulated network).  The server handler
+    sends 1-3 messages (all retry modes, small and fragmenting sizes) from inside connect(), then on every tick for the first
+    few ticks after promotion, then periodically; the client answers from its connect callback.  The world runs on for several
+    message timeouts and round trips, so that anything the handshake left in the retry bookkeeping comes round again while
+    application messages are queued.  The verdict is the wire monitor's, unchanged."""
+    total = 0
+    for case in range(cfg["n"]):
+        key = [cfg["seed"], "slowhello", cfg["shard"], case]
+        r = rng("C03", *key)
+        hr = rng("C03sh", *key)                       # the handler's own choices
+        j = cfg["shard"] * cfg["n"] + case
+        mt = MESSAGE_TIMEOUTS[(j + cfg["seed"]) % len(MESSAGE_TIMEOUTS)]
+        hs_timeout = [None, 5.0][(j // len(MESSAGE_TIMEOUTS)) % 2]   # None: both sides keep their default of 2 s; every message timeout meets both
+        limit = (hs_timeout or 2.0) * 0.96                            # round trips up to just below the handshake timeout
+        dt = r.choice([1 / 60, 1 / 30, 1 / 60])
+
+        def setup(ctxt, _mt=mt, _hs=hs_timeout):
+            ctxt.setConnectionTimeout(30.0)
+            if _mt is not None:
+                ctxt.setMessageTimeout(_mt)
+            if _hs is not None:
+                ctxt.setTempConnectionTimeout(_hs)
+        with T.Run(r, mtu=r.choice([1500, 1500, 576]), dt=dt, light=True, ctxt_setup=setup) as run:
+            w = run.world
+            eff_mt = 1.0 if mt is None else mt
+            delays = {}                                # client addr -> (c2s, s2c)
+
+            def per_client_delay(direction, addr, d, info):
+                dl = delays.get(addr)
+                if dl is None:
+                    return None
+                return [dl[0] if direction == "c2s" else dl[1]]
+            w.net.filters.append(per_client_delay)
+            # ---- the server application
+            promoted = {}                              # id(conn) -> server iteration of its connect event
+            eager_ticks = r.randint(2, 6)
+            period = r.choice([2, 3, 7])
+            modes = (0, 1, -1)
+
+            def on_connect(client):
+                promoted[id(client)] = w.server_iterations
+                for k in range(hr.randint(1, 3)):
+                    client.send(L.make_payload(0, 500000 + 10 * len(promoted) + k, hr.choice([24, 60, 300, 2000])), retry=modes[(len(promoted) + k) % 3])
+                    run.c.inc("greetings_sent_from_connect_event")
+
+            def on_update(delta):
+                for cc in list(w.ctxt.connections.values()):
+                    t0 = promoted.get(id(cc))
+                    if t0 is None:
+                        continue
+                    age = w.server_iterations - t0
+                    if age <= eager_ticks:
+                        cc.send(L.make_payload(0, 600000 + w.server_iterations * 16 + len(promoted), hr.choice([16, 40, 200])), retry=modes[age % 3])
+                        run.c.inc("server_sends_in_first_ticks_after_promotion")
+                    elif age % period == 0:
+                        cc.send(L.make_payload(0, 600000 + w.server_iterations * 16 + len(promoted), hr.choice([16, 40, 200, 1700])), retry=modes[(age // period) % 3])
+                        run.c.inc("server_sends_later_after_promotion")
+            w.handler.on["connect"] = [on_connect]
+            w.handler.on["update"] = [on_update]
+            # ---- the clients: a stratified sweep of round trips
+            n = cfg["clients"]
+            lo = 0.6
+            clients = []
+            for i in range(n):
+                rtt = lo + (limit - lo) * (i + r.random()) / n
+                share = r.choice([0.5, 0.5, 0.3, 0.7, 0.15, 0.85])
+                c = w.add_client()
+                delays[c.addr] = (rtt * share, rtt * (1.0 - share))
+                c.rtt = rtt
+                if hs_timeout is not None:
+                    c.udp.setConnectionTimeout(hs_timeout)
+                if mt is not None and r.random() < 0.5:
+                    c.udp.setMessageTimeout(mt)
+                c.updates_per_step = r.choice([1, 2])
+                c.on_connected.append(lambda cl: [cl.udp.send(L.make_payload(cl.sender_id, 700000 + k, 30 + 200 * k), retry=modes[k]) for k in range(2)])
+                clients.append(c)
+            for c in clients:
+                c.connect()
+                w.step(r.randint(1, 9))               # the hellos start at different phases of the server's tick and second
+            w.run_until(lambda ww: all(c.connect_cb for c in clients), int((limit + 1.5) / dt))
+            n_s2c = run.c.get("wire_s2c", 0)
+            # run on: two message timeouts and a round trip of the slowest client, application traffic all along
+            w.step(int((2.0 * eff_mt + 1.0 * limit + 1.0) / dt))
+            for c in clients:
+                sc = w.ctxt.connections.get(c.addr)
+                if c.connect_cb and c.connect_cb[-1][1] and sc is not None and id(sc) in promoted:
+                    run.c.inc("slow_handshakes_completed")
+                    if c.rtt > eff_mt:
+                        run.c.inc("slow_handshakes_with_round_trip_above_message_timeout")
+                    else:
+                        run.c.inc("slow_handshakes_with_round_trip_below_message_timeout")
+                else:
+                    run.c.inc("slow_handshakes_not_completed(observation)")
+            run.c.inc("slowhello_server_datagrams_after_promotion", run.c.get("wire_s2c", 0) - n_s2c)
+            if len(out["samples"]) < 3:
+                out["samples"].append({"scenario": "slowhello", "message_timeout": eff_mt, "handshake_timeout": hs_timeout or 2.0, "dt": dt,
+                                       "round_trips": [round(c.rtt, 3) for c in clients], "completed": len(promoted),
+                                       "eager_ticks": eager_ticks, "period": period})
+            total += run.c.get("wire_total", 0)
+            out["distinct"].add(h64("slowhello", key))
+            finish_run(run, out, {"kind": "slowhello", "shard": cfg["shard"], "case": case})
+    return total
+
+
 def run_mixed(cfg, out):
     total = 0
     for case in range(cfg["n"]):
@@ -492,7 +613,8 @@ def run_mixed(cfg, out):
 
 def run_shard(cfg):
     out = {"violations": [], "counters": Counter(), "samples": [], "distinct": set()}
-    n = {"silent": run_silent, "burst": run_burst, "mirror": run_mirror, "mixed": run_mixed, "idlespin": run_idlespin, "livespin": run_livespin}[cfg["kind"]](cfg, out)
+    n = {"silent": run_silent, "burst": run_burst, "mirror": run_mirror, "mixed": run_mixed, "idlespin": run_idlespin, "livespin": run_livespin,
+         "slowhello": run_slowhello}[cfg["kind"]](cfg, out)
     return {"evaluations": n, "distinct": sorted(out["distinct"]), "counters": dict(out["counters"]),
             "violations": out["violations"][:60], "samples": out["samples"]}
 
@@ -503,7 +625,10 @@ def finish(tier, seed, results):
     need(m["counters"], ["wire_gcm", "nonces_recorded", "wire_server_hello_clear", "silent_peer_datagrams", "silent_wraps",
                          "mirror_same_time_seq_ack_in_both_directions", "wire_c2s", "wire_s2c", "idlespin_spins",
                          "client_hello_replayed_after_key_agreement", "client_wait_for_disconnect_calls", "datagrams_during_wait_for_disconnect", "failed_connects_with_early_sends", "client_key_agreements_failed", "blackouts_with_pending_sends", "livespin_spins", "livespin_instant_acks", "worlds_with_reactor_lag", "reactor_batches_delayed", "cipher_failures_in_thread_send",
-                         "server_timed_out_client_while_sending"], inconclusive)
+                         "server_timed_out_client_while_sending",
+                         "slow_handshakes_completed", "slow_handshakes_with_round_trip_above_message_timeout",
+                         "slow_handshakes_with_round_trip_below_message_timeout", "greetings_sent_from_connect_event",
+                         "server_sends_in_first_ticks_after_promotion", "slowhello_server_datagrams_after_promotion"], inconclusive)
     cov = {
         "evaluations": m["evaluations"],
         "distinct_nontrivial": m["counters"].get("distinct_nonces", 0),
@@ -513,7 +638,9 @@ def finish(tier, seed, results):
                 "counters in quick, full wraps in thorough); same-second bursts at the rate cap with frozen ack; mirrored counters in both "
                 "directions for several offsets (the counter mirror_same_time_seq_ack_in_both_directions shows how often only the "
                 "direction magic separated two nonces); mixed sizes/retry modes/idle/outages, ending in a graceful disconnect, in a blocking waitForDisconnect() whose notice is never "
-                "acked, or in a server-side timeout while the application keeps sending. distinct = distinct (session key, "
+                "acked, or in a server-side timeout while the application keeps sending; slow handshakes (round trips swept from 0.6 s to just "
+                "below the handshake timeout, message timeouts from 0.05 s to 2.5 s) with a server application that sends from its connect event "
+                "and in the first ticks after promotion. distinct = distinct (session key, "
                 "nonce) pairs recorded, i.e. encrypted datagrams that are pairwise different in their nonce",
         "samples": m["samples"],
         "counters": m["counters"],
